@@ -1,4 +1,6 @@
 #include "bfs.h"
+#include <sys/prctl.h>
+#include <signal.h>
 #include <unistd.h>
 #include <signal.h>
 #include <sys/mman.h>
@@ -167,6 +169,7 @@ bfs_run(const bfs_model *m, bfs_result *r)
                                 if (pid[w] < 0)
                                         DIE("fork");
                                 if (pid[w] == 0) {
+                                        prctl(PR_SET_PDEATHSIG, SIGKILL);
                                         for (long i = w; i < n_cur; i += W) {
                                                 if ((i & 255) == (w & 255) && deadline_reached()) {
                                                         SH->cap_hit = 1;
